@@ -185,6 +185,10 @@ func c18Cases(env vk.Env) []vk.Case {
 		i := i
 		cs = append(cs, vk.Case{ID: fmt.Sprintf("finite/%d", i), Run: func(t *vk.T) { c18Finite(t, i) }})
 	}
+	for i := 0; i < env.Pick(12, 120); i++ {
+		i := i
+		cs = append(cs, vk.Case{ID: fmt.Sprintf("barrier/%d", i), Run: func(t *vk.T) { c18Barrier(t, i) }})
+	}
 	cs = append(cs, vk.Case{ID: "nilpool", Run: c18Nil})
 	cs = append(cs, vk.Case{ID: "worker-counts", Run: c18Counts})
 	return cs
@@ -576,4 +580,47 @@ func c18Counts(t *vk.T) {
 		}
 	}
 	t.Sample(map[string]any{"kind": "worker counts", "counts": []int{3, 1, 0, -1, -2, -16}, "tasks": []int{0, 1, 2, 7}})
+}
+
+// c18Barrier: workers that reach the slot claim of a Search are held until a second worker is at the same point
+// (bounded wait), then both are released together: "two workers succeed at the same moment", made likely instead
+// of left to chance.  The hook only delays.
+func c18Barrier(t *vk.T, i int) {
+	r := t.Rng
+	w := 2 + r.Intn(3)
+	c18Install()
+	p := pool.NewPool(w)
+	var arrived int32
+	paired := int64(0)
+	setHook(func(point string, _ int) {
+		if point != "ws.beforeCtr" {
+			return
+		}
+		n := atomic.AddInt32(&arrived, 1)
+		if n%2 == 0 {
+			atomic.AddInt64(&paired, 1)
+			return // second of a pair: go on at once
+		}
+		// first of a pair: spin (no parking, so that both continue within nanoseconds) until the partner arrives
+		for k := 0; k < 400000 && atomic.LoadInt32(&arrived) == n; k++ {
+		}
+	})
+	defer setHook(nil)
+	for call := 0; call < 150; call++ {
+		cnt := 2 + r.Intn(3)
+		desc := fmt.Sprintf("search(count=%d) on %d workers, slot claims released in pairs, call %d", cnt, w, call)
+		if !c18Call(t, p, "search", cnt, call, "barrier|search", desc, nil) {
+			return
+		}
+		if !conservation(t, "barrier|search", desc, false) {
+			return
+		}
+	}
+	t.Obs("paired_slot_claims", atomic.LoadInt64(&paired))
+	t.Distinct("barrier|workers=%d", w)
+	setHook(nil)
+	p.TearDown()
+	if i == 0 {
+		t.Sample(map[string]any{"kind": "paired slot claims", "workers": w, "calls": 150, "pairs_released_together": atomic.LoadInt64(&paired)})
+	}
 }
